@@ -11,8 +11,8 @@ PROP = 'C12'
 RULE = ('complete product: all criteria-range vectors of length 3 (4 thorough) over {1, 5, 7, 0, "apple", "Apple", "pear", blank} '
         '(thorough adds 5.5 and "p*r") planted as overrides x 26 criterion forms (plain number / text, the six operators with a '
         'number, = and <> with a text, operator & cell, criterion read from a cell, wildcards ? * ~) x {SUMIF without and with '
-        'sum range, SUMIFS, COUNTIFS, AVERAGEIFS with one pair, and each of the last three with a second pair on a fixed '
-        'range}; target cells are powers of two so a sum names the selected subset; SUMIF with shorter / longer / offset sum '
+        'sum range, SUMIFS, COUNTIFS, AVERAGEIFS with one pair, and each of the last three with a second and a third pair on '
+        'fixed ranges}; target cells are powers of two so a sum names the selected subset; SUMIF with shorter / longer / offset sum '
         'ranges; SUMIFS / COUNTIFS / AVERAGEIFS with ranges of different sizes (must be an error, never a number); mixed-content '
         'target column for SUMIF/SUMIFS; vectors of length <= 2 as workbook constants; non-trivial = every judged case (the '
         'expected subset depends on the vector)')
@@ -53,6 +53,9 @@ VARIANTS = [
     ('COUNTIFS/1', '=COUNTIFS(A1:A{n},{c})', 'count', False),
     ('COUNTIFS/2', '=COUNTIFS(A1:A{n},{c},C1:C{n},">5")', 'count', True),
     ('COUNTIFS/2r', '=COUNTIFS(C1:C{n},">5",A1:A{n},{c})', 'count', True),
+    ('COUNTIFS/3', '=COUNTIFS(D1:D{n},"<>t",A1:A{n},{c},C1:C{n},">5")', 'count', 'third'),
+    ('SUMIFS/3', '=SUMIFS(B1:B{n},C1:C{n},">5",D1:D{n},"<>t",A1:A{n},{c})', 'sum', 'third'),
+    ('AVERAGEIFS/3', '=AVERAGEIFS(B1:B{n},A1:A{n},{c},D1:D{n},"<>t",C1:C{n},">5")', 'avg', 'third'),
     ('AVERAGEIFS/1', '=AVERAGEIFS(B1:B{n},A1:A{n},{c})', 'avg', False),
     ('AVERAGEIFS/2', '=AVERAGEIFS(B1:B{n},A1:A{n},{c},C1:C{n},">5")', 'avg', True),
     ('SUMIF/3mixed', '=SUMIF(A1:A{n},{c},D1:D{n})', 'sum2', False),
@@ -196,7 +199,7 @@ def predicate(crit):
 def expected(kind, second, vec, crit):
     pred = predicate(crit)
     n = len(vec)
-    sel = [i for i in range(n) if pred(vec[i]) and (not second or SECOND[i] > 5)]
+    sel = [i for i in range(n) if pred(vec[i]) and (not second or SECOND[i] > 5) and (second != 'third' or TARGET2[i] != 't')]
     if kind == 'count':
         return len(sel), sel
     if kind == 'sum':
